@@ -38,6 +38,7 @@ LOAD_RULE = ("load engine (half of the joiners of an in-flight load are single-k
 LOAD_ASSUME = ["atomicity of hashmap.Compute sections (C15) and of the calls table's get-or-create", "eviction/expiration of a key being loaded is modelled as an invalidation event; the engine exercises it through Invalidate only",
                "timing is used only to decide that a goroutine is blocked (25 ms) — a slow machine can hide a violation, not invent one"]
 
+PERIODIC = dict(engine="periodic", scale_quick=3, scale_thorough=20, timeout_quick=600, timeout_thorough=3000, model=False)
 LIN = dict(engine="lin", scale_quick=8, scale_thorough=40, timeout_quick=900, timeout_thorough=6000)
 DRAIN = dict(engine="drain", scale_quick=6, scale_thorough=30, timeout_quick=900, timeout_thorough=6000, model=False)
 
@@ -85,7 +86,9 @@ PROPS = {
     "C05": dict(engines=[MAINT], rule=MAINT_RULE, assumptions=MAINT_ASSUME),
     "C06": dict(engines=[SEQ, MAINT], rule=SEQ_RULE + "; OnDeletion vs OnAtomicDeletion multisets compared at quiescence of every case", assumptions=SEQ_ASSUME),
     "C07": dict(engines=[MAINT, SEQ], rule=MAINT_RULE + "; in both engines every Overflow removal is checked against the model's total weight and the current maximum", assumptions=MAINT_ASSUME),
-    "C13": dict(engines=[MAINT], rule=MAINT_RULE + "; clock steps include sub-tick, one tick +-1, whole revolutions of every level and 2^52 ns; about 6% of Set/SetIfAbsent calls in expiring configurations are STALE writes: the clock sample is taken, then the clock advances (3 ns .. 2^42 ns) and CleanUp runs, then the write proceeds with the old sample (the two-thread interleaving of the property text, produced deterministically through the Clock interface)", assumptions=MAINT_ASSUME),
+    "C13": dict(engines=[MAINT, PERIODIC], rule=MAINT_RULE + "; clock steps include sub-tick, one tick +-1, whole revolutions of every level and 2^52 ns; about 6% of Set/SetIfAbsent calls in expiring configurations are STALE writes: the clock sample is taken, then the clock advances (3 ns .. 2^42 ns) and CleanUp runs, then the write proceeds with the old sample (the two-thread interleaving of the property text, produced deterministically through the Clock interface)"
+                                " | periodic engine (implementation oracle): the harness owns the Clock and fires its ticks (zero, wall-clock and clock-derived tick values); after a tick more than one timer tick past the deadlines, "
+                                "with no cache call by the harness, EstimatedSize must reach 0 and every Expiration event be delivered (TTLs 1 ms .. 40 days, three phases per cache)", assumptions=MAINT_ASSUME),
     "C19": dict(engines=[SEQ], rule=SEQ_RULE + "; at the end of every case the cache is saved, the clock moved (0, 1 ns, exactly the first deadline, just before it, beyond) and loaded into a fresh cache of the same configuration with the same / a larger / a smaller maximum", assumptions=SEQ_ASSUME + ["gob is the identity on Entry"]),
     "C01": dict(engines=[SEQ], rule=SEQ_RULE, assumptions=SEQ_ASSUME),
     "C03": dict(engines=[SEQ], rule=SEQ_RULE + "; the evidence's model_replay_stats.on_expired_* count operations applied to an expired-but-unswept key",
